@@ -185,4 +185,184 @@ theorem loadDictInc_agrees_with_loadInc (top file : Env) (pname : String) (main 
   unfold loadDictInc loadInc
   simp only [Out.bind_eq_ok, loadDict_ok_iff_load]
 
+/-! ## taint confinement and the default rendering with an include -/
+
+/-- **taint_confined (secrets, resolved input)**: the whole-pipeline confinement of `taint_confined_secrets` for a model
+whose secrets may already have been resolved (a string under the first `x-#value` entry is exempt on input too) — the
+state of the including model after the import -/
+theorem taint_confined_secrets_resolved {P : String → Prop} (hx : P extKey) (hxv : P xValue) (hn : P "name")
+    (hemp : P "") (hnil : P "<nil>") (hcut : CutClosed P)
+    {env : Env} {pname : String} {dict : KVs}
+    (hsec : ∀ objs, lookup "secrets" dict = some (.map objs) →
+      ∀ e ∈ objs, P e.1 ∧ P (pname ++ "_" ++ e.1) ∧ ValOkF P xValue e.2)
+    {ss : List (String × FileObj)} (h : loadSection true env pname dict = .ok ss) :
+    ∀ e ∈ ss, P e.1 ∧ e.2.CleanBut P ∧ e.2.marshallContent = false := by
+  unfold loadSection at h
+  simp only [if_true] at h
+  split at h
+  · cases h; simp
+  · rename_i objs hl
+    have h0 := hsec objs hl
+    have h1 := forall_resolveObjs (Q0 := fun n v => P n ∧ P (pname ++ "_" ++ n) ∧ ValOkF P xValue v)
+      (Q1 := fun n v => P n ∧ P (pname ++ "_" ++ n) ∧ ValOkF P xValue v) xValue env
+      (fun n v hq => ⟨hq.1, hq.2.1, ValOkF_resolveObj_again hxv env hq.2.2⟩) h0
+    cases hs : setNameObjs pname (resolveObjs xValue env objs) with
+    | ok objs2 =>
+      rw [hs] at h
+      simp only [Out.bind] at h
+      have h2 := forall_setNameObjs (Q1 := fun n v => P n ∧ P (pname ++ "_" ++ n) ∧ ValOkF P xValue v)
+        (Q2 := fun n v => P n ∧ ∃ kvs, v = .map kvs ∧ ObjOkF P xValue kvs) pname
+        (fun n v v' hq hv => by
+          obtain ⟨kvs, rfl, hk⟩ := setNameObj_ok hv
+          refine ⟨hq.1, _, rfl, ?_⟩
+          rcases hk with rfl | ⟨rfl, rfl⟩
+          · exact ObjOkF_setNameKVs (by decide) hn hq.1 hq.2.1 hq.2.2
+          · exact ObjOkF_setNameKVs (by decide) hn hq.1 hq.2.1 (by simp [ObjOkF])) hs h1
+      exact forall_decodeObjs (Q2 := fun n v => P n ∧ ∃ kvs, v = .map kvs ∧ ObjOkF P xValue kvs)
+        (Q3 := fun n o => P n ∧ o.CleanBut P ∧ o.marshallContent = false) decodeSecret ["secrets"]
+        (fun n v o q hq ho => by
+          obtain ⟨hn', kvs, rfl, hk⟩ := hq
+          exact ⟨hn', secret_obj_clean hx hemp hnil hcut hk ho⟩) h h2
+    | err e => rw [hs] at h; simp [Out.bind] at h
+    | panic s => rw [hs] at h; simp [Out.bind] at h
+  · cases h
+
+/-- **the including model after the import**: when both files are untainted (and the generated names are), every secret
+of the merged model is untainted except a string under its first `x-#value` entry — the values of *both* environments
+sit only there — and the configs section is untainted (an included model does not resolve its configs) -/
+theorem include_confines_taint {P : String → Prop} (hxv : P xValue) {top file : Env} {pname : String} {main inc m : KVs}
+    (hmain : AllStrKV P main) (hinc : AllStrKV P inc)
+    (hgm : GenNamesOk P pname "secrets" main) (hgi : GenNamesOk P pname "secrets" inc)
+    (hcm : GenNamesOk P pname "configs" main) (hci : GenNamesOk P pname "configs" inc)
+    (h : includeModel top file main inc = .ok m) :
+    (∀ objs, lookup "secrets" m = some (.map objs) → ∀ e ∈ objs, P e.1 ∧ P (pname ++ "_" ++ e.1) ∧ ValOkF P xValue e.2) ∧
+    (∀ v, lookup "configs" m = some v → AllStr P v) ∧ GenNamesOk P pname "configs" m := by
+  unfold includeModel at h
+  obtain ⟨m1, h1, h2⟩ := Out.bind_eq_ok.1 h
+  have hsecM : ∀ objs, lookup "secrets" main = some (.map objs) →
+      ∀ e ∈ objs, P e.1 ∧ P (pname ++ "_" ++ e.1) ∧ ValOkF P xValue e.2 := fun objs hl e he => by
+    have := AllStrKV_lookup hmain hl
+    simp only [AllStr] at this
+    exact ⟨(AllStrKV_forall this e he).1, hgm objs hl e he, ValOkF_of_AllStr (AllStrKV_forall this e he).2⟩
+  have hsecI : ∀ objs, lookup "secrets" (resolveModel true (mergeEnv top file) inc) = some (.map objs) →
+      ∀ e ∈ objs, P e.1 ∧ P (pname ++ "_" ++ e.1) ∧ ValOkF P xValue e.2 := fun objs hl => by
+    simp only [resolveModel, if_true, resolveSecretsEnv, lookup_resolveSection_self] at hl
+    cases hi : lookup "secrets" inc with
+    | none => rw [hi] at hl; simp [rsv] at hl
+    | some v =>
+      rw [hi] at hl
+      cases v with
+      | map objs0 =>
+        simp only [rsv] at hl
+        cases hl
+        have := AllStrKV_lookup hinc hi
+        simp only [AllStr] at this
+        exact forall_resolveObjs (Q0 := fun n v => P n ∧ P (pname ++ "_" ++ n) ∧ AllStr P v)
+          (Q1 := fun n v => P n ∧ P (pname ++ "_" ++ n) ∧ ValOkF P xValue v) xValue _
+          (fun n v hq => ⟨hq.1, hq.2.1, ValOkF_resolveObj hxv _ hq.2.2⟩)
+          (fun e he => ⟨(AllStrKV_forall this e he).1, hgi objs0 hi e he, (AllStrKV_forall this e he).2⟩)
+      | _ => simp [rsv] at hl
+  have hcfgI : lookup "configs" (resolveModel true (mergeEnv top file) inc) = lookup "configs" inc := by
+    simp only [resolveModel, if_true, resolveSecretsEnv]
+    exact lookup_resolveSection_ne (by decide) _ _ _
+  have hcfg1 : lookup "configs" m1 = lookup "configs" main := importSection_lookup_ne (by decide) h1
+  refine ⟨?_, ?_, ?_⟩
+  · intro objs hl
+    rw [importSection_lookup_ne (by decide) h2] at hl
+    exact importSection_forall (Q := fun n v => P n ∧ P (pname ++ "_" ++ n) ∧ ValOkF P xValue v) h1 hsecI hsecM objs hl
+  · refine importSection_AllStr h2 ?_ ?_
+    · intro v hl; rw [hcfgI] at hl; exact AllStrKV_lookup hinc hl
+    · intro v hl; rw [hcfg1] at hl; exact AllStrKV_lookup hmain hl
+  · exact importSection_forall (Q := fun n _ => P (pname ++ "_" ++ n)) h2
+      (fun objs hl => by rw [hcfgI] at hl; exact hci objs hl)
+      (fun objs hl => by rw [hcfg1] at hl; exact hcm objs hl)
+
+/-- **render_default_clean with an include (full strength)**: for every including and included model, every including
+environment and every env file of the include, the default YAML and JSON renderings of the secrets and configs sections
+of the loaded project are untainted: neither environment's values reach them -/
+theorem render_default_clean_included {P : String → Prop} (hv : VocabOk P)
+    {top file : Env} {pname : String} {main inc : KVs}
+    (hmain : AllStrKV P main) (hinc : AllStrKV P inc)
+    (hgm : GenNamesOk P pname "secrets" main) (hgi : GenNamesOk P pname "secrets" inc)
+    (hcm : GenNamesOk P pname "configs" main) (hci : GenNamesOk P pname "configs" inc)
+    {p : Proj} (h : loadInc top file pname main inc = .ok p) (r : Renderer) :
+    AllStr P (render r false p) := by
+  unfold loadInc at h
+  obtain ⟨m, hm, hload⟩ := Out.bind_eq_ok.1 h
+  obtain ⟨hsec, hcfg, hgc⟩ := include_confines_taint (hv.carriers _ (by decide)) hmain hinc hgm hgi hcm hci hm
+  unfold load at hload
+  obtain ⟨ss, hss, h'⟩ := Out.bind_eq_ok.1 hload
+  obtain ⟨cs, hcs, hp⟩ := Out.bind_eq_ok.1 h'
+  cases hp
+  have hS := taint_confined_secrets_resolved (hv.carriers _ (by decide)) (hv.carriers _ (by decide)) (hv.carriers _ (by decide))
+    (hv.vocab _ (by decide)) (hv.vocab _ (by decide)) hv.cut hsec hss
+  -- the configs section alone is an untainted model
+  have hC : ∀ e ∈ cs, P e.1 ∧ e.2.CleanBut P ∧ (e.2.environment ≠ "" ∨ OptP P e.2.content) := by
+    cases hl : lookup "configs" m with
+    | none =>
+      have : loadSection false top pname m = loadSection false top pname [] :=
+        loadSection_congr false top pname (by simpa [Val.lookup] using hl)
+      rw [this] at hcs
+      simp [loadSection, Val.lookup] at hcs
+      cases hcs; simp
+    | some v =>
+      have hc' : loadSection false top pname m = loadSection false top pname [("configs", v)] :=
+        loadSection_congr false top pname (by simpa [Val.lookup] using hl)
+      rw [hc'] at hcs
+      refine taint_confined_configs (hv.carriers _ (by decide)) (hv.carriers _ (by decide)) (hv.carriers _ (by decide))
+        (hv.vocab _ (by decide)) (hv.vocab _ (by decide)) hv.cut (dict := [("configs", v)]) ?_ ?_ hcs
+      · simp only [AllStrKV]; exact ⟨hv.vocab _ (by decide), hcfg v hl, trivial⟩
+      · intro objs ho e he
+        simp only [Val.lookup, if_true] at ho
+        cases ho
+        exact hgc objs hl e he
+  simp only [render, applyOpts, Bool.false_eq_true, if_false, AllStr]
+  refine AllStrKV_append (AllStrKV_sectionKV (hv.vocab _ (by decide)) ?_) (AllStrKV_sectionKV (hv.vocab _ (by decide)) ?_)
+  · exact AllStrKV_mapVals fun e he => ⟨(hS e he).1, AllStr_renderSecret hv.vocab (hS e he).2.1 (hS e he).2.2 r⟩
+  · exact AllStrKV_mapVals fun e he => ⟨(hC e he).1, AllStr_renderConfig hv.vocab (hC e he).2.1 (hC e he).2.2 r⟩
+
+/-- the property's wording for a model with an include: a canary that occurs in neither file (nor in the vocabulary or
+the generated names) occurs nowhere in the default rendering — whatever the including environment *and the include's
+env file* hold -/
+theorem canary_absent_from_default_rendering_included (c : List Char) (hv : VocabOk (fun s => ¬ occurs c s))
+    {top file : Env} {pname : String} {main inc : KVs} (hmain : Clean c (.map main)) (hinc : Clean c (.map inc))
+    (hgm : GenNamesOk (fun s => ¬ occurs c s) pname "secrets" main) (hgi : GenNamesOk (fun s => ¬ occurs c s) pname "secrets" inc)
+    (hcm : GenNamesOk (fun s => ¬ occurs c s) pname "configs" main) (hci : GenNamesOk (fun s => ¬ occurs c s) pname "configs" inc)
+    {p : Proj} (h : loadInc top file pname main inc = .ok p) (r : Renderer) :
+    Clean c (render r false p) :=
+  render_default_clean_included hv (by simpa [Clean, AllStr] using hmain) (by simpa [Clean, AllStr] using hinc) hgm hgi hcm hci h r
+
+/-! ## non-vacuity: a model with an include that has its own env file -/
+namespace ExampleInc
+
+def canary : List Char := "CANARY-9: {x}".toList
+
+def main : KVs :=
+  [("services", .map [("web", .map [("image", .str "nginx"), ("secrets", .seq [.str "token"])])]),
+   ("secrets", .map [("local", .map [("environment", .str "LOCAL_TOKEN")])])]
+
+def inc : KVs :=
+  [("secrets", .map [("token", .map [("environment", .str "MODULE_TOKEN")]), ("both", .map [("environment", .str "LOCAL_TOKEN")])]),
+   ("configs", .map [("cfg", .map [("environment", .str "MODULE_CFG")])])]
+
+def top : Env := [("LOCAL_TOKEN", "local-value")]
+def file : Env := [("MODULE_TOKEN", "CANARY-9: {x}"), ("MODULE_CFG", "cfg CANARY-9: {x}"), ("LOCAL_TOKEN", "shadowed CANARY-9: {x}")]
+
+def proj : Proj :=
+  { secrets := [("local", { name := "p_local", environment := "LOCAL_TOKEN", content := "local-value" }),
+                ("token", { name := "p_token", environment := "MODULE_TOKEN", content := "CANARY-9: {x}" }),
+                ("both", { name := "p_both", environment := "LOCAL_TOKEN", content := "local-value" })],
+    configs := [("cfg", { name := "p_cfg", environment := "MODULE_CFG" })] }
+
+/-- it loads; the secret of the included file carries the value only the include's env file defines; a variable both
+define has the including environment's value; the included config is not resolved by the include's env file -/
+example : loadInc top file "p" main inc = .ok proj := by rfl
+example : loadDictInc top file "p" main inc = .ok proj := by rfl
+example : Clean canary (.map main) ∧ Clean canary (.map inc) := by decide
+example : Clean canary (render .yaml false proj) ∧ Clean canary (render .json false proj) := by decide
+example : ¬ Clean canary (render .yaml true proj) := by decide
+example : render .json false proj ≠ .map [] := by simp [render, proj, applyOpts, sectionKV, mapVals]
+
+end ExampleInc
+
 end CV.Secrets
